@@ -47,9 +47,10 @@ type session struct {
 	blocks  []blockRec // blocks processed successfully or attempted, in order (cause analysis)
 	retry   bool       // a `fault retry` happened: memory/database divergence is measured, not judged
 	okCnt   int
-	faulted bool        // a crash / error fault fired in this session
-	base    map[int]int // owner -> nonce expected next when the case started / the recipient was seeded
-	adds    map[int]int // owner -> parsed ValidatorAdded events processed since then
+	faulted bool             // a crash / error fault fired in this session
+	vaSeen  map[int][]string // validator id -> "owner|op/key,op/key,…" of every ValidatorAdded delivered so far
+	base    map[int]int      // owner -> nonce expected next when the case started / the recipient was seeded
+	adds    map[int]int      // owner -> parsed ValidatorAdded events processed since then
 }
 
 func (s *session) out(op, obs string) {
@@ -68,7 +69,7 @@ func openDisk(dir string) basedb.Database {
 }
 
 func newSession(run *hx.Run, emit bool, disk bool, extra string) *session {
-	s := &session{run: run, emit: emit, base: map[int]int{}, adds: map[int]int{}}
+	s := &session{run: run, emit: emit, base: map[int]int{}, adds: map[int]int{}, vaSeen: map[int][]string{}}
 	if disk {
 		d, err := os.MkdirTemp("", "verif-registry-")
 		must(err)
@@ -215,6 +216,7 @@ func markerOf(dbv string) string {
 
 func (s *session) block(num uint64, evs []*event) blockResult {
 	before := markerOf(dbView(s.raw))
+	pre := s.snapshotForAddOracle()
 	res := s.p.processBlock(num, evs)
 	s.blocks = append(s.blocks, blockRec{num, evs})
 	st := res.status
@@ -242,6 +244,7 @@ func (s *session) block(num uint64, evs []*event) blockResult {
 			}
 		}
 		s.checkNonces(fmt.Sprintf("after block %d", num), dbv)
+		s.checkAdds(num, evs, pre)
 	}
 	s.run.Tag("block:" + st)
 	s.run.Seen(st + ":" + res.out + ":" + res.trace)
@@ -286,6 +289,133 @@ func (s *session) fault(kind string, atReal, atModel, kmAt int, num uint64, evs 
 		s.run.Seen("fault:" + kind + ":" + hit + ":" + prev)
 	}
 	return
+}
+
+// ---- oracle "a validator is added exactly when the registration rules say so, with the committee as emitted" ----
+// Evaluated on the implementation with the facts the real code computed (signedNonce, share data length, decryptOk,
+// keyMatches) and the oracle's own nonce count; silent whenever the outcome could depend on something it does not
+// track (same validator twice in the block, own operator id changing inside the block, operators added in the block).
+
+type addPre struct {
+	ops   map[uint64]bool
+	vals  map[int]bool
+	self  uint64
+	nonce map[int]int
+}
+
+func (s *session) snapshotForAddOracle() addPre {
+	p := addPre{ops: map[uint64]bool{}, vals: map[int]bool{}, nonce: map[int]int{}, self: s.p.ods.GetOperatorID()}
+	ops, err := s.p.ns.ListOperators(nil, 0, 0)
+	must(err)
+	for _, o := range ops {
+		p.ops[o.ID] = true
+	}
+	for _, sh := range s.p.ns.Shares().List(nil) {
+		p.vals[idOfVal(sh.ValidatorPubKey)] = true
+	}
+	for o := 1; o <= nAddr; o++ {
+		p.nonce[o] = (s.base[o] + s.adds[o]) % 65536
+	}
+	return p
+}
+
+func pairing(e *event) string {
+	ps := make([]string, len(e.Mem))
+	for i, m := range e.Mem {
+		ps[i] = fmt.Sprintf("%d/%d", m.Op, m.Key)
+	}
+	return fmt.Sprintf("%d|%s", e.Owner, strings.Join(ps, ","))
+}
+
+func (s *session) checkAdds(num uint64, evs []*event, pre addPre) {
+	if s.retry || s.faulted {
+		return
+	}
+	stored := map[int]string{}   // validator -> "owner|op/key,…" as stored
+	storedOp := map[int]uint64{} // validator -> Share.OperatorID
+	for _, sh := range s.p.ns.Shares().List(nil) {
+		ps := make([]string, len(sh.Committee))
+		for i, m := range sh.Committee {
+			ps[i] = fmt.Sprintf("%d/%d", m.OperatorID, idOfShare(m.PubKey))
+		}
+		v := idOfVal(sh.ValidatorPubKey)
+		stored[v] = fmt.Sprintf("%d|%s", idOfAddr(sh.OwnerAddress), strings.Join(ps, ","))
+		storedOp[v] = sh.OperatorID
+	}
+	valUses := map[int]int{}
+	ownOA := false
+	for _, e := range evs {
+		if e.Kind == "VA" || e.Kind == "VR" {
+			valUses[e.Val]++
+		}
+		if e.Kind == "OA" && e.RSA == 1 {
+			ownOA = true
+		}
+		if e.Kind == "VA" {
+			s.vaSeen[e.Val] = append(s.vaSeen[e.Val], pairing(e))
+		}
+	}
+	// (1) every stored committee pairs operator ids and share keys exactly as some delivered ValidatorAdded emitted them
+	for v, st := range stored {
+		ok := false
+		for _, p := range s.vaSeen[v] {
+			if p == st {
+				ok = true
+			}
+		}
+		if !ok {
+			s.run.Violate("C11/stored-committee-not-as-emitted", fmt.Sprintf("after block %d: validator %d is stored as %s, no ValidatorAdded event delivered so far says that (emitted: %v)", num, v, st, s.vaSeen[v]), s.lines...)
+			return
+		}
+	}
+	// (2) a ValidatorAdded that passes every listed check is registered
+	nonce := map[int]int{}
+	for o, n := range pre.nonce {
+		nonce[o] = n
+	}
+	for _, e := range evs {
+		if e.Kind != "VA" {
+			continue
+		}
+		expected := nonce[e.Owner]
+		nonce[e.Owner] = (nonce[e.Owner] + 1) % 65536
+		n := len(e.Mem)
+		if ownOA || valUses[e.Val] != 1 || pre.vals[e.Val] || e.Val < 1 || e.Val > nVal || e.signedNonce != expected ||
+			!(n == 4 || n == 7 || n == 10 || n == 13) || e.sharesLen != 96+n*(48+eventhandler.VerifEncryptedKeyLength) {
+			continue
+		}
+		seen := map[uint64]bool{}
+		good, mine := true, false
+		for _, m := range e.Mem {
+			if seen[m.Op] || !pre.ops[m.Op] {
+				good = false
+			}
+			seen[m.Op] = true
+			if m.Op == pre.self {
+				if pre.self == 0 || !m.dec || !m.km {
+					good = false
+				}
+				mine = true
+			}
+		}
+		if !good {
+			continue
+		}
+		wantOp := uint64(0)
+		if mine {
+			wantOp = pre.self
+		}
+		st, found := stored[e.Val]
+		switch {
+		case !found:
+			s.run.Violate("C11/valid-validator-added-not-registered", fmt.Sprintf("block %d: %s passes every check (nonce %d expected and signed, %d existing distinct operators, exact share length, own member decryptable and matching: %v) but validator %d is not stored", num, e.token(), expected, n, mine, e.Val), s.lines...)
+			return
+		case st != pairing(e) || storedOp[e.Val] != wantOp:
+			s.run.Violate("C11/stored-committee-not-as-emitted", fmt.Sprintf("block %d: %s was accepted but is stored as %s with OperatorID %d (expected %s, OperatorID %d)", num, e.token(), st, storedOp[e.Val], pairing(e), wantOp), s.lines...)
+			return
+		}
+		s.run.Tag("oracle:valid-add-registered")
+	}
 }
 
 // oracle "the nonce counts every add attempt exactly once" (mod 2^16), evaluated on the stored recipients
